@@ -16,7 +16,7 @@ ASSUMPTIONS = [
     "'rejected' means any exception raised by the constructor",
 ]
 
-NAMES = ["jq", "bs", "d3", "x-y"]
+NAMES = ["jq", "JQ", "bs", "d3", "D3", "x-y", "stra\u00dfe", "strasse"]
 
 
 def versions():
